@@ -42,14 +42,20 @@ pub struct WatchHit {
 struct Watches {
     n: usize,
     w: [(usize, usize, u64); NWATCH],
+    /// provided-buffer rings of the simulated kernel: (tag, ring address, entries, kernel head). The
+    /// buffers published in a ring (entries between the kernel's head and the tail the program wrote)
+    /// are memory the kernel may write at any time.
+    nrings: usize,
+    rings: [(u64, usize, u16, u16); 16],
 }
 
 thread_local! {
     static ACTIVE: Cell<bool> = const { Cell::new(false) };
     static HEAD: Cell<*mut Chunk> = const { Cell::new(ptr::null_mut()) };
     static HELD: Cell<usize> = const { Cell::new(0) };
-    static WATCHES: std::cell::UnsafeCell<Watches> = const { std::cell::UnsafeCell::new(Watches { n: 0, w: [(0, 0, 0); NWATCH] }) };
+    static WATCHES: std::cell::UnsafeCell<Watches> = const { std::cell::UnsafeCell::new(Watches { n: 0, w: [(0, 0, 0); NWATCH], nrings: 0, rings: [(0, 0, 0, 0); 16] }) };
     static HIT: Cell<Option<WatchHit>> = const { Cell::new(None) };
+    static POISON: Cell<bool> = const { Cell::new(false) };
     /// first freed block found modified when the run ended: (address, size)
     static WRITTEN_AFTER_FREE: Cell<Option<(usize, usize)>> = const { Cell::new(None) };
 }
@@ -83,8 +89,53 @@ pub fn watch_remove(tag: u64) {
     });
 }
 
+pub fn pbuf_register(tag: u64, ring_addr: usize, entries: u16) {
+    WATCHES.with(|w| unsafe {
+        let w = &mut *w.get();
+        if w.nrings < 16 {
+            w.rings[w.nrings] = (tag, ring_addr, entries, 0);
+            w.nrings += 1;
+        }
+    });
+}
+
+pub fn pbuf_set_head(tag: u64, head: u16) {
+    WATCHES.with(|w| unsafe {
+        let w = &mut *w.get();
+        for i in 0..w.nrings {
+            if w.rings[i].0 == tag {
+                w.rings[i].3 = head;
+            }
+        }
+    });
+}
+
+pub fn pbuf_unregister(tag: u64) {
+    WATCHES.with(|w| unsafe {
+        let w = &mut *w.get();
+        let mut i = 0;
+        while i < w.nrings {
+            if w.rings[i].0 == tag {
+                w.rings[i] = w.rings[w.nrings - 1];
+                w.nrings -= 1;
+            } else {
+                i += 1;
+            }
+        }
+    });
+}
+
+/// Fill freed blocks with a pattern (0xDD) before they are quarantined: code that goes on reading them
+/// sees garbage instead of the old contents (a pointer read from them faults). Off by default.
+pub fn set_poison(on: bool) {
+    POISON.with(|p| p.set(on));
+}
+
 pub fn watch_clear() {
-    WATCHES.with(|w| unsafe { (*w.get()).n = 0 });
+    WATCHES.with(|w| unsafe {
+        (*w.get()).n = 0;
+        (*w.get()).nrings = 0;
+    });
     HIT.with(|h| h.set(None));
 }
 
@@ -129,6 +180,32 @@ fn check_watches(p: *mut u8, size: usize) {
                     }
                 });
                 break;
+            }
+        }
+        // buffers currently published in a provided-buffer ring
+        for k in 0..w.nrings {
+            let (tag, ring, entries, head) = w.rings[k];
+            if (a < ring + entries as usize * 16) && (ring < b) {
+                continue; // the ring memory itself: covered by its own watch
+            }
+            let tail = ((ring + 14) as *const u16).read_volatile();
+            let mask = entries.wrapping_sub(1);
+            let mut idx = head;
+            let mut guard = 0u32;
+            while idx != tail && guard <= entries as u32 {
+                let e = ring + ((idx & mask) as usize) * 16;
+                let addr = (e as *const u64).read_unaligned() as usize;
+                let len = ((e + 8) as *const u32).read_unaligned() as usize;
+                if addr < b && a < addr + len {
+                    let _ = HIT.try_with(|h| {
+                        if h.get().is_none() {
+                            h.set(Some(WatchHit { watch_addr: addr, watch_len: len, tag, freed_addr: a, freed_len: size }));
+                        }
+                    });
+                    return;
+                }
+                idx = idx.wrapping_add(1);
+                guard += 1;
             }
         }
     });
@@ -224,6 +301,9 @@ unsafe impl GlobalAlloc for Quarantine {
                 HEAD.with(|h| h.set(head));
             }
             check_watches(p, layout.size());
+            if POISON.try_with(|x| x.get()).unwrap_or(false) {
+                ptr::write_bytes(p, 0xDD, layout.size());
+            }
             let c = &mut *head;
             c.items[c.len] = (p, layout.size(), layout.align(), checksum(p, layout.size()));
             c.len += 1;
